@@ -76,3 +76,45 @@ package hintdetail
 //@   requires cause != nil
 //@   ensures !typeis(payload, *errorspb.StringPayload) ==> result == nil
 //@   ensures typeis(payload, *errorspb.StringPayload) ==> typeis(result, *withDetail) && result.(*withDetail).cause == cause && result.(*withDetail).detail == payload.(*errorspb.StringPayload).Msg
+
+// ---- aggregation (C19): independent recursive specifications ----
+
+//@ spec func ErrorHintM(e error) string
+//@ spec func hintOf(e error) string = hasMethod(typeof(e), "ErrorHint() string") ? ErrorHintM(e) : ""
+//@ spec func ErrorDetailM(e error) string
+//@ spec func detailOf(e error) string = hasMethod(typeof(e), "ErrorDetail() string") ? ErrorDetailM(e) : ""
+
+// hintsAcc: hints of the cause chain first (innermost to outermost), then the own hint unless it is
+// empty or already present (first occurrence wins)
+//@ spec func hintsAcc(e error, acc []string) []string
+//@ unfold hintsAcc(e, acc) = hintsStep(e, (cause1(e) != nil ? hintsAcc(cause1(e), acc) : acc))
+//@ spec func hintsStep(e error, h []string) []string = (hintOf(e) != "" && !seqContains(h, hintOf(e))) ? seqAppend(h, hintOf(e)) : h
+//@ spec func noDup(s []string) bool = forall i int, j int :: 0 <= i && i < j && j < len(s) ==> s[i] != s[j]
+
+//@ func getAllHintsInternal
+//@   props C19 C07
+//@   requires err != nil && seen != nil
+//@   requires forall x string :: seen.has(x) <==> seqContains(hints, x)
+//@   assigns mapof seen
+//@   ensures seqEq(result, hintsAcc(err, hints))
+//@   ensures forall x string :: seen.has(x) <==> seqContains(result, x)
+
+//@ func GetAllHints
+//@   props C19 C07 C11
+//@   requires err != nil
+//@   ensures seqEq(result, hintsAcc(err, nil))
+
+// detailsAcc: details innermost to outermost, empty ones skipped, no de-duplication
+//@ spec func detailsAcc(e error, acc []string) []string
+//@ unfold detailsAcc(e, acc) = detailsStep(e, (cause1(e) != nil ? detailsAcc(cause1(e), acc) : acc))
+//@ spec func detailsStep(e error, d []string) []string = detailOf(e) != "" ? seqAppend(d, detailOf(e)) : d
+
+//@ func getAllDetailsInternal
+//@   props C19 C07
+//@   requires err != nil
+//@   ensures seqEq(result, detailsAcc(err, details))
+
+//@ func GetAllDetails
+//@   props C19 C07 C11
+//@   requires err != nil
+//@   ensures seqEq(result, detailsAcc(err, nil))
